@@ -38,8 +38,14 @@ func vf34Creds(values []string) map[string]any {
 	if len(values) > 0 {
 		req.Header["Authorization"] = base.HeaderValue(values)
 	}
-	c := Credentials(req)
-	return map[string]any{"user": c.User, "pass": c.Pass, "token": c.Token}
+	res := map[string]any{"user": "", "pass": "", "token": ""}
+	if panicked, _ := verifrt.Catch(func() {
+		c := Credentials(req)
+		res = map[string]any{"user": c.User, "pass": c.Pass, "token": c.Token}
+	}); panicked {
+		res["panic"] = true
+	}
+	return res
 }
 
 // spec -> impl: every header list of the bounded model.
